@@ -9,9 +9,11 @@
 -/
 import Nq.Lemmas.Pop3Blast
 import Nq.Lemmas.Pop3Sess
+import Nq.Lemmas.Pop3Heap
+import Nq.Lemmas.Pop3Stat
 
 namespace Nq.Props.C19
-open Nq Nq.Pop3 Nq.Pop3Ref Nq.Lemmas.Pop3
+open Nq Nq.Pop3 Nq.Pop3Ref Nq.Lemmas.Pop3 Nq.Lemmas.Pop3Heap
 
 /-! ### RETR and TOP: what a client decodes is the stored message -/
 
@@ -347,6 +349,178 @@ theorem C19_tables :
       (vNoop, "okay")] ∧ Gen.Pop3Tab.popupDefault = "err_authoriz" :=
   ⟨rfl, rfl, rfl, rfl⟩
 
+/-! ### start-up: the numbering is the mtime order of the files (prioq.c heap, maildir_scan, getlist)
+
+The heap lemmas are those of property C15 (`Nq.Lemmas.Sched`, array model of prioq.c): the list
+model used here is proved equal to it (`toA_pqInsert`, `toA_pqDelmin` in `Nq.Lemmas.Pop3Heap`). -/
+
+/-- **Heap sort.** Draining (prioq_min / prioq_delmin until empty) a heap built by prioq_insert from
+any entries, in any order, yields exactly those entries, each once, in non-decreasing order of `dt`. -/
+theorem C19_heap_sort (l : List Elt) :
+    (pqDrain (l.foldl pqInsert []).length (l.foldl pqInsert [])).Perm l ∧
+    (pqDrain (l.foldl pqInsert []).length (l.foldl pqInsert [])).Pairwise (fun a b => a.dt ≤ b.dt) :=
+  insert_drain_sorted l
+
+/-- **getlist()**: for every maildir (any readdir order, any names, any times) the message table is
+`L.map (startMsg fs)` for a list of files `L` that is a permutation of the eligible files — entries of
+new/ and cur/ whose name does not begin with a dot and whose mtime is before `now` — sorted by mtime,
+oldest first.  Message number i+1 is `L[i]`: its path, the size of the file of that name, unmarked. -/
+theorem C19_startup_order (now : Nat) (fs : FS) :
+    ∃ L : List File, L.Perm (eligible now fs) ∧ L.Pairwise (fun a b => a.mtime ≤ b.mtime) ∧
+      getlist now fs = L.map (startMsg fs) :=
+  getlist_sorted_perm now fs
+
+/-- with unique names (maildir(5); a directory cannot hold two entries of one name) the size
+announced for an eligible file is the length of that very file -/
+theorem C19_startup_sizes (now : Nat) (fs : FS) (hu : (fs.map (·.path)).Nodup) :
+    ∀ f ∈ eligible now fs, (startMsg fs f).size = f.data.length := by
+  intro f hf
+  simp only [startMsg, sizeAt, find_of_nodup fs hu f (eligible_mem now fs f hf)]
+
+/-- main() for a non-root user with a maildir is: clean tmp/, getlist(), greet, then the command loop -/
+theorem C19_main_session (uid now : Nat) (fs : FS) (evs : List Ev) (hu : uid ≠ 0) :
+    Pop3.main uid true now fs evs =
+      { out := (evs.foldl feedEv (start now fs)).out, err := [], code := 0,
+        fs := (evs.foldl feedEv (start now fs)).s.fs } :=
+  main_eq_start uid now fs evs hu
+
+/-- **The numbering of a whole session is the mtime order of the maildir at start-up.**  There is a
+list `L` of files — a permutation of the eligible files of the maildir as main() found it, sorted by
+mtime — such that after any events (bytes in any pieces, files vanishing) message number i+1 still
+denotes `L[i]`: that path and the size of that file at start-up.  (maildir_clean, which runs first,
+touches tmp/ only, so `eligible` and the sizes are those of the maildir before it.) -/
+theorem C19_session_numbering (now : Nat) (fs : FS) :
+    ∃ L : List File, L.Perm (eligible now fs) ∧ L.Pairwise (fun a b => a.mtime ≤ b.mtime) ∧
+      ∀ evs : List Ev, (evs.foldl feedEv (start now fs)).s.msgs.map ident =
+        L.map (fun f => (f.path, sizeAt fs f.path)) := by
+  obtain ⟨L, h1, h2, h3⟩ := getlist_sorted_perm now (cleanTmp now fs)
+  rw [eligible_cleanTmp] at h1
+  refine ⟨L, h1, h2, ?_⟩
+  intro evs
+  rw [C19_numbering evs (start now fs)]
+  show (getlist now (cleanTmp now fs)).map ident = _
+  rw [h3, List.map_map]
+  apply List.map_congr_left
+  intro f hf
+  have hd := eligible_dir now fs f (h1.subset hf)
+  have hp : f.path.take 4 ≠ tmpSl := by
+    rcases hd with hd | hd
+    · have : f.path.take 4 = newSl := by simpa [inDir] using hd
+      rw [this]; decide
+    · have : f.path.take 4 = curSl := by simpa [inDir] using hd
+      rw [this]; decide
+  simp only [Function.comp, ident, startMsg, sizeAt_cleanTmp now fs f.path hp]
+
+/-! ### STAT and LAST -/
+
+/-- **STAT** answers "+OK count total": `total` is the sum of the announced sizes of the messages not
+marked deleted (computed in unsigned long, i.e. modulo 2^64 — exact whenever the sum is below 2^64);
+`count` is the number of messages at start-up (marked ones included: outside the property). -/
+theorem C19_stat (s : Sess) (verb arg : Bytes) (hv : verbIs vStat verb = true) :
+    exec s verb arg = (s, okSp ++ fmtNat (s.msgs.length % U32) ++ [SP] ++ fmtNat (liveTotal s.msgs % U64) ++ [CR, LF], none) ∧
+    (liveTotal s.msgs < U64 → liveTotal s.msgs % U64 = liveTotal s.msgs) := by
+  have h : lower verb = vStat := by simpa [verbIs] using hv
+  refine ⟨?_, Nat.mod_eq_of_lt⟩
+  simp only [exec, verbIs, h, stat_total]
+  simp [vQuit, vStat]
+
+/-- **LAST** answers "+OK n" with the session's `last` … -/
+theorem C19_last_reply (s : Sess) (verb arg : Bytes) (hv : verbIs vLast verb = true) :
+    exec s verb arg = (s, okSp ++ fmtNat s.last ++ [CR, LF], none) := by
+  have h : lower verb = vLast := by simpa [verbIs] using hv
+  simp [exec, verbIs, h, vQuit, vStat, vList, vUidl, vDele, vRetr, vTop, vRset, vLast]
+
+/-- … **which is, at every point of every session, the highest message number marked by DELE since
+the last RSET** (0 if none): `highMark 0 msgs`, characterised by `C19_last_highest`. -/
+theorem C19_last_session (now : Nat) (fs : FS) (evs : List Ev) :
+    (evs.foldl feedEv (start now fs)).s.last = highMark 0 (evs.foldl feedEv (start now fs)).s.msgs :=
+  feedEvs_lastInv evs (start now fs) (start_lastInv now fs)
+
+/-- one command keeps `last` = highest marked number -/
+theorem C19_last_step (s : Sess) (verb arg : Bytes) (h : s.last = highMark 0 s.msgs) :
+    (exec s verb arg).1.last = highMark 0 (exec s verb arg).1.msgs := exec_lastInv s verb arg h
+
+/-- `highMark 0 msgs` is the highest marked message number: every marked message has a number ≤ it,
+and it is 0 or the number of a marked message -/
+theorem C19_last_highest (msgs : List Msg) :
+    (∀ i m, msgs[i]? = some m → m.del = true → i + 1 ≤ highMark 0 msgs) ∧
+    (highMark 0 msgs = 0 ∨ ∃ i m, msgs[i]? = some m ∧ m.del = true ∧ highMark 0 msgs = i + 1) := by
+  refine ⟨?_, ?_⟩
+  · intro i m h1 h2
+    have := highMark_ge msgs 0 i m h1 h2
+    omega
+  · rcases highMark_attained msgs 0 with h | ⟨i, m, h1, h2, h3⟩
+    · left; exact h
+    · right; exact ⟨i, m, h1, h2, by omega⟩
+
+/-! ### commands(): grammar of a line, one handler per line, independence of read sizes -/
+
+/-- **Grammar of a command line.** A line `verb SP^k arg [CR]` — verb without space or NUL, argument
+without NUL and not beginning with a space, at least one space if there is an argument, the text not
+itself ending in CR — is dispatched as exactly (verb, arg), with or without the CR. -/
+theorem C19_parse_grammar (verb arg : Bytes) (k : Nat)
+    (hv : ∀ c ∈ verb, c ≠ SP ∧ c ≠ NUL) (ha : ∀ c ∈ arg, c ≠ NUL) (hh : arg.head? ≠ some SP)
+    (hk : arg ≠ [] → k ≠ 0) (hcr : (verb ++ (List.replicate k SP ++ arg)).getLast? ≠ some CR) :
+    parseLine (verb ++ (List.replicate k SP ++ arg)) = (verb, arg) ∧
+    parseLine (verb ++ (List.replicate k SP ++ arg) ++ [CR]) = (verb, arg) := by
+  have hb := parse_body verb arg k hv ha hh hk
+  constructor
+  · unfold parseLine
+    simp only [hcr, if_false]
+    exact hb
+  · unfold parseLine
+    simp only [List.getLast?_concat, List.dropLast_concat, if_true]
+    exact hb
+
+/-- the excluded lines: **a line containing NUL is cut at the first NUL** (the C string ends there;
+a CR before the NUL is then not the end of the line and stays) -/
+theorem C19_parse_nul (a b : Bytes) (ha : ∀ c ∈ a, c ≠ NUL) :
+    parseLine (a ++ NUL :: b) = (a.takeWhile (· ≠ SP), (a.dropWhile (· ≠ SP)).dropWhile (· = SP)) := by
+  have hall : ∀ c ∈ a, (fun x : Byte => decide (x ≠ NUL)) c = true := by
+    intro c hc; simpa using ha c hc
+  have key : ∀ b' : Bytes, (a ++ NUL :: b').takeWhile (fun x : Byte => decide (x ≠ NUL)) = a :=
+    fun b' => takeWhile_stop _ a b' NUL hall (by simp)
+  unfold parseLine
+  split
+  · cases b with
+    | nil =>
+      rename_i h
+      rw [List.getLast?_append] at h
+      simp at h
+      exact absurd h (by decide)
+    | cons x b' =>
+      have : (a ++ NUL :: x :: b').dropLast = a ++ NUL :: (x :: b').dropLast := by
+        rw [List.dropLast_append_of_ne_nil (by simp), List.dropLast_cons_of_ne_nil (by simp)]
+      simp only [this, key]
+  · simp only [key]
+
+/-- **The model's parser and the reference's parser agree** on every line without NUL: the verb (up
+to case) and the argument commands() dispatches are those of the independently written
+`Pop3Ref.splitCmd`, which the oracle reads the client's lines with. -/
+theorem C19_parse_ref (line : Bytes) (h : ∀ c ∈ line, c ≠ NUL) :
+    splitCmd line = (lower (parseLine line).1, (parseLine line).2) := by
+  have hall : ∀ l : Bytes, (∀ c ∈ l, c ≠ NUL) → l.takeWhile (fun x : Byte => decide (x ≠ NUL)) = l := by
+    intro l hl
+    exact takeWhile_all _ l (by intro c hc; simpa using hl c hc)
+  unfold splitCmd parseLine
+  split
+  · have hd : ∀ c ∈ line.dropLast, c ≠ NUL := fun c hc => h c (List.dropLast_subset _ hc)
+    simp only [hall _ hd]
+    rfl
+  · simp only [hall _ h]
+    rfl
+
+/-- **commands() runs exactly one handler per LF-terminated line**, in order, on the verb and
+argument of that line; after the handler that ends the process nothing more is executed. -/
+theorem C19_command_loop (lines : List Bytes) (r : Run) (hc : r.cmd = []) (hl : ∀ l ∈ lines, LF ∉ l) :
+    (lines.flatMap (· ++ [LF])).foldl feedByte r = lines.foldl stepLine r :=
+  feed_lines lines r hc hl
+
+/-- **The sizes of the reads do not matter**: the same bytes in two pieces or in one. -/
+theorem C19_chunking (r : Run) (a b : Bytes) :
+    feedEv (feedEv r (.data a)) (.data b) = feedEv r (.data (a ++ b)) := by
+  simp only [feedEv_data, List.foldl_append]
+
 /-! ### Non-vacuity (bytes written out: 10 = LF, 13 = CR, 46 = '.', 97 = 'a', 32 = SP) -/
 
 /-- "a LF LF . LF . . LF b" — header, blank, a lone dot, a dot-dot line, unterminated last line -/
@@ -363,5 +537,32 @@ example : ∃ r, msgno { msgs := [⟨[], 0, false⟩, ⟨[], 0, true⟩], last :
 example : (scanWith true [49, 56, 52, 52, 54, 55, 52, 52, 48, 55, 51, 55, 48, 57, 53, 53, 49, 54, 49, 55]).1 = U64 - 1 := by decide
 /-- … while the wrapping scanner reads 2^64+1 as 1 -/
 example : (scanWith false [49, 56, 52, 52, 54, 55, 52, 52, 48, 55, 51, 55, 48, 57, 53, 53, 49, 54, 49, 55]).1 = 1 := by decide
+
+/-- heap sort of dt = 5 3 9 3 1 (ids 0..4): the two 3s come out in heap order (the later one first) -/
+example : pqDrain 5 ([⟨5, 0⟩, ⟨3, 1⟩, ⟨9, 2⟩, ⟨3, 3⟩, ⟨1, 4⟩].foldl pqInsert [])
+    = [⟨1, 4⟩, ⟨3, 3⟩, ⟨3, 1⟩, ⟨5, 0⟩, ⟨9, 2⟩] := by decide
+/-- a maildir in readdir order: cur/b (mtime 7), new/.x (dot file), new/a (mtime 9), new/c (mtime 3),
+tmp/t, cur/late (mtime = now): numbering c, b, a -/
+example : getlist 10 [⟨[99, 117, 114, 47, 98], [1, 2], 7, 0⟩, ⟨[110, 101, 119, 47, 46, 120], [], 1, 0⟩,
+      ⟨[110, 101, 119, 47, 97], [1], 9, 0⟩, ⟨[110, 101, 119, 47, 99], [1, 2, 3], 3, 0⟩,
+      ⟨[116, 109, 112, 47, 116], [], 1, 0⟩, ⟨[99, 117, 114, 47, 108], [], 10, 0⟩]
+    = [⟨[110, 101, 119, 47, 99], 3, false⟩, ⟨[99, 117, 114, 47, 98], 2, false⟩, ⟨[110, 101, 119, 47, 97], 1, false⟩] := by
+  decide
+example : (eligible 10 [⟨[99, 117, 114, 47, 98], [1, 2], 7, 0⟩, ⟨[110, 101, 119, 47, 46, 120], [], 1, 0⟩,
+      ⟨[110, 101, 119, 47, 97], [1], 9, 0⟩, ⟨[110, 101, 119, 47, 99], [1, 2, 3], 3, 0⟩,
+      ⟨[116, 109, 112, 47, 116], [], 1, 0⟩, ⟨[99, 117, 114, 47, 108], [], 10, 0⟩]).map (·.mtime) = [9, 3, 7] := by decide
+/-- "STAT" is the STAT verb; three messages, the second marked: total 10 -/
+example : verbIs vStat [83, 84, 65, 84] = true := by decide
+example : liveTotal [⟨[], 3, false⟩, ⟨[], 5, true⟩, ⟨[], 7, false⟩] = 10 := by decide
+/-- messages 2 and 3 of 4 marked: LAST reports 3 -/
+example : highMark 0 [⟨[], 0, false⟩, ⟨[], 0, true⟩, ⟨[], 0, true⟩, ⟨[], 0, false⟩] = 3 := by decide
+example : verbIs vLast [108, 65, 115, 84] = true := by decide
+/-- "DELE  1" CR and "QUIT" -/
+example : parseLine [68, 69, 76, 69, 32, 32, 49, 13] = ([68, 69, 76, 69], [49]) := by decide
+example : parseLine [81, 85, 73, 84] = ([81, 85, 73, 84], []) := by decide
+/-- "a" NUL "b": cut at the NUL -/
+example : parseLine [97, 0, 98] = ([97], []) := by decide
+/-- two lines, the second never runs because the first is QUIT -/
+example : ((stepLine (stepLine { s := ⟨[], 0, []⟩ } [113, 117, 105, 116]) [110, 111, 111, 112]).exit = some 0) := by decide
 
 end Nq.Props.C19
